@@ -998,8 +998,8 @@ RunResult simulate(const Scenario &sc) {
 	bool any_failure = any_tool_failure || pipeline_failure || link_failure;
 
 	if (K->hang) {
-		if (nodrain) K->probe("hang_when_tool_succeeds_without_draining(D5,non-deciding)");
-		else viol("C18/I6 hang", K->hang_why);
+		(void)nodrain;
+		viol("C18/I6 hang", K->hang_why);
 	} else if (ex.usage) {
 		// C17.1: usage error <=> exit 2 and nothing was run
 		if (K->exit_status != 2) viol("C17/usage-not-refused", "model: usage error (" + ex.why + "), driver exit status " + std::to_string(K->exit_status));
